@@ -570,6 +570,8 @@ class Interp:
             return self.call_closure(f, args, kwargs)
         if isinstance(f, ExternalFn):
             return f.fn(self, args, kwargs)
+        if isinstance(f, self.ext.OpaqueFn):
+            return self.ext.call_opaque_fn(self, f, args, kwargs)
         if isinstance(f, BuiltinMethod):
             return self.ext.call_builtin_method(self, f.obj, f.name, args, kwargs)
         if isinstance(f, TypeRef):
